@@ -21,12 +21,14 @@ AttributeError as usual; anything else is passed through to the real module.
 
 import glob as _real_glob
 import os as _real_os
+import re
 import shutil
 
 from . import SimCrash, HarnessError
 from . import rng as rngmod
 
 _COUNTER = [0]
+_RANDOM_TMP = re.compile(r'^tmp[A-Za-z0-9_]{8}$')
 
 
 def make_scratch():
@@ -78,13 +80,13 @@ class Seam:
         """One step of the current op is about to be performed."""
         self.steps += 1
         self.total_steps += 1
+        if self.on_step is not None:
+            self.on_step(kind, what)
         if self.crash_at is not None and self.steps == self.crash_at:
             self.crashed = True
             self.crash_at = None
             raise SimCrash('killed before step %d (%s %s)' % (
                 self.steps, kind, what))
-        if self.on_step is not None:
-            self.on_step(kind, what)
 
     def command(self, kind, what=None):
         """An external command is about to be run (a step that can fail)."""
@@ -99,7 +101,9 @@ class Seam:
         names = sorted(names)
         if self.order:
             order = self.order
-            names.sort(key=lambda n: rngmod.mix(order, n))
+            # the scratch root differs from run to run: key on the base name
+            names.sort(key=lambda n: rngmod.mix(
+                order, _real_os.path.basename(n)))
         return names
 
 
@@ -125,7 +129,7 @@ class SeamOS:
             seam = self._seam
 
             def stepped(*args, **kwargs):
-                seam.tick('fs:' + name, _short(args))
+                seam.tick('fs:' + name, _short(args, name))
                 return real(*args, **kwargs)
             return stepped
         return real
@@ -164,11 +168,17 @@ class CountingTempfile:
                            name)
 
 
-def _short(args):
+def _short(args, name=''):
     out = []
+    if name in ('rename', 'replace'):
+        # the source is usually a randomly named temporary file
+        args = args[1:2]
     for arg in args[:2]:
         if isinstance(arg, str):
-            out.append(_real_os.path.basename(arg))
+            base = _real_os.path.basename(arg)
+            if _RANDOM_TMP.match(base):
+                base = 'tmp<random>'     # tempfile.NamedTemporaryFile name
+            out.append(base)
         else:
             out.append(repr(arg))
     return ' '.join(out)
